@@ -6,7 +6,7 @@ J=10; [ "$1" = -j ] && { J=$2; shift 2; }
 cd /verif
 seeds="$@"; [ -z "$seeds" ] && seeds=$(ls seeded | grep -v MATRIX)
 args=""; for id in $seeds; do [ -f seeded/$id/patch.diff ] && args="$args $id=/verif/seeded/$id/patch.diff"; done
-scripts/par_patches.sh -j $J $args | sort > /tmp/seed_res.txt
+[ -n "$REUSE" ] || scripts/par_patches.sh -j $J $args | sort > /tmp/seed_res.txt   # REUSE=1: only rewrite MATRIX.md from the last run
 python3 - "$(git rev-parse --short HEAD)" "$(git -C /repo rev-parse --short HEAD)" "$#" <<'PY'
 import json,sys
 vh,rh,nargs=sys.argv[1:4]
